@@ -49,7 +49,7 @@ theorem cmpInf_le_max {x y : Int} {o : Option Int} :
 
 /-! ### soundness of the replay passes -/
 
-theorem replay_sound (i : Inst) (hT : ∀ a b, i.T a b = i.D a b) (hlim : cmpInf .le 0 i.limit = true) :
+theorem replay_sound (i : Inst) (hlim : cmpInf .le 0 i.limit = true) :
     ∀ (as : List Nat) (cur : Nat) (t len : Int),
     cmpInf .le len i.limit = true →
     checkReplay i cur t len as = true →
@@ -96,8 +96,7 @@ theorem replay_sound (i : Inst) (hT : ∀ a b, i.T a b = i.D a b) (hlim : cmpInf
         cases ho : i.openR
         · simp only [ho, Bool.false_eq_true, beq_self_eq_true] at okL
           simp only [Bool.false_eq_true, if_false, pathLen, Int.add_zero, Bool.false_or]
-          refine ⟨okL, ?_⟩
-          rw [hT]; exact okT.1
+          exact ⟨okL, okT.1⟩
         · simp only [if_true, pathLen, Int.add_zero, Bool.true_or, and_true]
           exact hlen
       · intro r' hr' hne
@@ -118,11 +117,11 @@ theorem replay_sound (i : Inst) (hT : ∀ a b, i.T a b = i.D a b) (hlim : cmpInf
         · exact absurd h.2 (by simp)
       have := ih a _ _ okL hrec hP' r1 rs1 h1
       refine ⟨fun _ => ?_, this.2⟩
-      rw [contTD_cons_iff, hT]
+      rw [contTD_cons_iff]
       exact ⟨okT.1, this.1 (Or.inl h0)⟩
 
 theorem c1_sound (cap : Int) (dem : Nat → Int) (hd0 : dem 0 = 0) : ∀ (as : List Nat) (used : Int),
-    checkC1 [cap] dem used as = true →
+    checkC1 cap dem used as = true →
     ∀ r rs, routes as = r :: rs →
       (r ≠ [] → (r.map dem).sum + used ≤ cap) ∧ ∀ r' ∈ rs, r' ≠ [] → (r'.map dem).sum ≤ cap := by
   intro as
@@ -135,8 +134,7 @@ theorem c1_sound (cap : Int) (dem : Nat → Int) (hd0 : dem 0 = 0) : ∀ (as : L
   | cons a as ih =>
     intro used hchk r rs hr
     obtain ⟨r1, rs1, h1⟩ := routes_cons_exists as
-    simp only [checkC1, Params.mtvrpCheckCapCmp, Cmp.eval, List.all_cons, List.all_nil, Bool.and_true,
-      Bool.and_eq_true, decide_eq_true_eq] at hchk
+    simp only [checkC1, Params.mtvrpCheckCapCmp, Cmp.eval, Bool.and_eq_true, decide_eq_true_eq] at hchk
     obtain ⟨hle, hrec⟩ := hchk
     by_cases h0 : a = 0
     · subst h0
@@ -176,7 +174,7 @@ def slackOk (i : Inst) (j : Nat) : Bool :=
   | none => true
   | some l0 => match i.late j with
     | none => false
-    | some l => decide (l + i.service j + i.D j 0 ≤ l0)
+    | some l => decide (l + i.service j + i.T j 0 ≤ l0)
 
 theorem checkStatic_node {i : Inst} (h : checkStatic i = true) (k : Nat) (hk : k ≤ i.n) :
     cmpInf .le 0 (i.late k) = true ∧ cmpInf .lt (i.early k) (i.late k) = true := by
@@ -197,8 +195,8 @@ theorem pathLen_nonneg' {D : Nat → Nat → Int} (hD : ∀ a b, 0 ≤ D a b) : 
     have := pathLen_nonneg' hD (y :: r)
     omega
 
-theorem replay_complete (i : Inst) (hT : ∀ a b, i.T a b = i.D a b) (hstat : checkStatic i = true)
-    (hD : ∀ a b, 0 ≤ i.D a b) (h00 : i.D 0 0 = 0)
+theorem replay_complete (i : Inst) (hstat : checkStatic i = true)
+    (hD : ∀ a b, 0 ≤ i.D a b) (h00 : i.D 0 0 = 0) (hT00 : i.T 0 0 = 0)
     (hslack : i.openR = true → ∀ j, 1 ≤ j → j ≤ i.n → slackOk i j = true) :
     ∀ (as : List Nat) (cur : Nat) (t len : Int),
     (∀ a ∈ as, a ≤ i.n) → cur ≤ i.n →
@@ -235,10 +233,10 @@ theorem replay_complete (i : Inst) (hT : ∀ a b, i.T a b = i.D a b) (hstat : ch
         by_cases hc : cur = 0
         · obtain ⟨ht, _⟩ := hz hc
           subst hc; subst ht
-          simpa [h00] using hst0.1
+          simpa [hT00] using hst0.1
         · have htm := (hr.1 (Or.inl hc)).2
           cases ho : i.openR
-          · simpa [timeOk, within, ho, hT] using htm
+          · simpa [timeOk, within, ho] using htm
           · have h1' := hsl hc
             have h2' := hslack ho cur (by omega) hcur
             simp only [slackOk] at h2'
@@ -267,8 +265,7 @@ theorem replay_complete (i : Inst) (hT : ∀ a b, i.T a b = i.D a b) (hstat : ch
       have hsta := checkStatic_node hstat a ha
       have hbeq : (a == 0) = false := by simp [h0]
       simp only [h0, if_false, hbeq, Bool.false_eq_true, and_false]
-      rw [hT] at hcont
-      have hokT : cmpInf .le (max (t + i.D cur a) (i.early a)) (i.late a) = true :=
+      have hokT : cmpInf .le (max (t + i.T cur a) (i.early a)) (i.late a) = true :=
         cmpInf_le_max.2 ⟨hcont.1, cmpInf_le_of_lt hsta.2⟩
       refine ⟨⟨?_, hokT⟩, ?_⟩
       · refine cmpInf_le_of_le_of_le ?_ hcont.2.1
@@ -276,7 +273,7 @@ theorem replay_complete (i : Inst) (hT : ∀ a b, i.T a b = i.D a b) (hstat : ch
         omega
       · apply ih a _ _ hrange' ha (fun h => absurd h h0)
         · intro _
-          have e : max (t + i.D cur a) (i.early a) + i.service a - i.service a = max (t + i.D cur a) (i.early a) := by omega
+          have e : max (t + i.T cur a) (i.early a) + i.service a - i.service a = max (t + i.T cur a) (i.early a) := by omega
           rw [e]; exact hokT
         · intro r rs hrs
           rw [h1] at hrs
@@ -288,7 +285,7 @@ theorem c1_complete (n : Nat) (cap : Int) (dem : Nat → Int) (hcap : 0 ≤ cap)
     (hnn : ∀ k, k ≤ n → 0 ≤ dem k) : ∀ (as : List Nat) (used : Int),
     (∀ a ∈ as, a ≤ n) →
     (∀ r rs, routes as = r :: rs → (r.map dem).sum + used ≤ cap ∧ ∀ r' ∈ rs, (r'.map dem).sum ≤ cap) →
-    checkC1 [cap] dem used as = true := by
+    checkC1 cap dem used as = true := by
   intro as
   induction as with
   | nil => intros; rfl
@@ -296,8 +293,7 @@ theorem c1_complete (n : Nat) (cap : Int) (dem : Nat → Int) (hcap : 0 ≤ cap)
     intro used hrange hroutes
     obtain ⟨r1, rs1, h1⟩ := routes_cons_exists as
     have hrange' : ∀ b ∈ as, b ≤ n := fun b hb => hrange b (List.mem_cons_of_mem _ hb)
-    simp only [checkC1, Params.mtvrpCheckCapCmp, Cmp.eval, List.all_cons, List.all_nil, Bool.and_true,
-      Bool.and_eq_true, decide_eq_true_eq]
+    simp only [checkC1, Params.mtvrpCheckCapCmp, Cmp.eval, Bool.and_eq_true, decide_eq_true_eq]
     by_cases h0 : a = 0
     · subst h0
       have hr := hroutes [] (r1 :: rs1) (by simp [routes, h1])
